@@ -26,11 +26,11 @@ type Sym struct {
 	cache map[ssa.Value]string
 	deps  map[ssa.Value][]ssa.Value
 	// IsPure decides whether a static callee may be treated as a pure function of its arguments.
-	IsPure func(fn *ssa.Function) bool
-	stores map[*ssa.Alloc][]*ssa.Store // stores whose address is rooted at the alloc
+	IsPure  func(fn *ssa.Function) bool
+	stores  map[*ssa.Alloc][]*ssa.Store // stores whose address is rooted at the alloc
 	escapes map[*ssa.Alloc]bool
 	pstores map[string][]*ssa.Store // stores through parameter/global-rooted field paths, by path key
-	dom    func(a, b *ssa.BasicBlock) bool
+	dom     func(a, b *ssa.BasicBlock) bool
 	// PhiConst, if set, folds a phi that can only take one constant value once a parameter is bound to a constant
 	// (`attr := ""; switch name { case "a": attr = "href" … }` specialised to a name); it returns the constant's symbol.
 	PhiConst func(*ssa.Phi) (string, bool)
